@@ -77,7 +77,7 @@ impl Check for C34 {
     fn cases(&self, tier: Tier) -> u32 {
         match tier {
             Tier::Quick => 300_000,
-            Tier::Thorough => 20_000_000,
+            Tier::Thorough => 5_000_000,
         }
     }
     fn required_labels(&self) -> Vec<&'static str> {
